@@ -26,14 +26,22 @@ type Program struct {
 	LoadSec float64
 }
 
+// GoBin is the directory of the go command used to load packages (the newer
+// toolchain pre-installed beside the default one).
+var GoBin = "/opt/veriftools/go1.26.8/bin"
+
 // Load loads the given package patterns from dir with the overlay applied.
 func Load(dir string, overlay map[string][]byte, tags string, patterns []string) (*Program, error) {
 	t0 := time.Now()
+	// go/packages resolves "go" through this process's PATH
+	if !strings.HasPrefix(os.Getenv("PATH"), GoBin+":") {
+		os.Setenv("PATH", GoBin+":"+os.Getenv("PATH"))
+	}
 	cfg := &packages.Config{
 		Mode:       packages.LoadAllSyntax,
 		Dir:        dir,
 		Overlay:    overlay,
-		Env:        append(os.Environ(), "GOFLAGS=-mod=mod", "GOPROXY=off", "GOSUMDB=off"),
+		Env:        append(os.Environ(), "GOFLAGS=-mod=mod", "GOPROXY=off", "GOSUMDB=off", "GOTOOLCHAIN=local"),
 		BuildFlags: []string{"-tags=" + tags},
 	}
 	pkgs, err := packages.Load(cfg, patterns...)
